@@ -20,7 +20,13 @@ Families
               byte sequences with put_byte, wrong-type writers; the file is read
               back by Python (byte-exact UTF-8) and by get_char/get_code/get_byte
   mem         write/2 to a file vs write_term_to_chars/3, read_term/3 from a file
-              vs read_term_from_chars/3 (in-memory twins)
+              vs read_term_from_chars/3 (in-memory twins).  This tree has no
+              Prolog-level constructor for an in-memory (Stream::Byte) stream -- they
+              exist only behind charsio and the embedding API -- so memory streams
+              are reached through these twins only.
+
+Scryer has no line_count/2; the line counter is the second argument of the
+position term position_and_lines_read(Pos, Lines).
 """
 import itertools
 import os
@@ -57,7 +63,7 @@ BIN_CORE = ["gb", "pb", "gn", "ae", "pr", "sp"]
 BIN_EXT = ["gc", "pd", "rt"]
 EOFS = ["error", "eof_code", "reset"]
 
-TEXT_DEEP = ["", "a", "é\n", "€\U0001F600", "\n\na", "x. y.\nz.", "ab.\n\n", "a\U0001F600\né"]
+TEXT_DEEP = ["", "a", "é\n", "€\U0001F600", "\n\na", "x. y.\nz.", "ab.\n\n", "a\U0001F600\né", "k. "]
 BIN_DEEP = [b"", b"a", b"\xff", b"\n\xc3a", b"a\x00\xff\n"]
 CHARS = ["a", "é", "€", "\U0001F600", "\n"]
 WRITERS = ["c", "d", "w", "f", "fa", "fs"]
